@@ -205,3 +205,45 @@ Proof.
     apply (f_equal vx) in Hb. apply (f_equal this) in Hb.
     destruct i as [[|] [|]], j as [[|] [|]]; vm_compute in Hb; discriminate.
 Qed.
+
+(* ---- dispatch condition of the convex-convex fast path ------------------------- *)
+(* Impl::Minkowski takes the fast path when IsConvex() holds for both operands
+   and then returns A u hull(VA (+) VB).  That set always contains the whole
+   hull of A's vertices: the fast path is only correct when hull(VA) is inside
+   A (+) B, i.e. IsConvex must mean "A = conv VA" (connected, closed, genus 0,
+   no concave edge) - a union of disjoint convex bodies has no concave edge
+   either, which is why IsConvex also tests the genus. *)
+Lemma code_cc_contains_hull_l (A VA VB : set) : conv VB vzero -> incl (conv VA) (code_cc A VA VB).
+Proof.
+  intros H0 x Hx. right. apply hull_of_sums_l. exists x, vzero. repeat split; auto. symmetry; apply vadd_zero_r.
+Qed.
+
+Lemma fast_path_requires_hull_inside_l (A VA VB S : set) :
+  conv VB vzero -> incl (code_cc A VA VB) S -> incl (conv VA) S.
+Proof. intros H0 H x Hx. apply H, code_cc_contains_hull_l; assumption. Qed.
+
+Lemma conv_single c x : conv (fun p => p = c) x -> x = c.
+Proof.
+  intros H. induction H as [x H|x y t _ IHx _ IHy _]; [exact H|].
+  subst. destruct c as [[? ?] ?]. unfold mix, vadd, vscale, vx, vy, vz; cbn [fst snd]. apply vec_ext; ring.
+Qed.
+
+(* two disjoint bodies [0,1] u [4,5] (+) {0}: the fast-path expression contains 5/2, the sum does not *)
+Definition wA2 : set := union (segx 0 1) (segx 4 5).
+Definition wVA2 : set := fun p => p = onx 0 \/ p = onx 1 \/ p = onx 4 \/ p = onx 5.
+Definition wVB0 : set := fun p => p = vzero.
+
+Lemma fast_path_multibody_refuted_l :
+  conv wVB0 vzero /\ incl wVA2 wA2 /\ code_cc wA2 wVA2 wVB0 (onx (5 # 2)) /\ ~ msum wA2 (conv wVB0) (onx (5 # 2)).
+Proof.
+  assert (B0 : conv wVB0 vzero) by (apply conv_in; reflexivity).
+  split; [exact B0|]. split; [|split].
+  - intros p [H|[H|[H|H]]]; subst p; [left|left|right|right]; repeat split; vm_compute; congruence.
+  - apply code_cc_contains_hull_l; [exact B0|].
+    assert (E : onx (5 # 2) = mix (Q2Qc (1 # 2)) (onx 1) (onx 4)).
+    { unfold onx, mix, vadd, vscale, vx, vy, vz; cbn [fst snd]. apply vec_ext; apply Qc_is_canon; vm_compute; reflexivity. }
+    rewrite E. apply conv_mix; [apply conv_in; right; left; reflexivity|apply conv_in; right; right; left; reflexivity|].
+    split; vm_compute; congruence.
+  - intros (a & b & Ha & Hb & E). apply conv_single in Hb. subst b. rewrite vadd_zero_r in E. subst a.
+    destruct Ha as [(_ & _ & _ & H)|(_ & _ & H & _)]; vm_compute in H; apply H; reflexivity.
+Qed.
